@@ -70,9 +70,19 @@ def build(script, memo=None):
         elif op == "convert_records":
             r = src.convert_records(build_recmap(script["recmap"]))
         else:
-            r = pipes.apply_step(src, script, lambda b: build(b, memo))
+            # "share_b": the second operand of a join / concat is the very node OBJECT of the first operand (a DAG with a shared
+            # interior node, `a.concat_rows(a)`); the script still carries a structural copy under "b" for the mutants
+            r = pipes.apply_step(src, script, lambda b: src if script.get("share_b") else build(b, memo))
     memo[key] = r
     return r
+
+
+def unshare(script):
+    """the same pipeline built as a tree: every operand built separately (no node object used twice)"""
+    s = json.loads(json.dumps(script))
+    for _, n in walk(s):
+        n.pop("share_b", None)
+    return s
 
 
 def walk(script, path=()):
@@ -504,8 +514,40 @@ def gen_recmap_case(rng):
     return s, [wide, blk]
 
 
+def gen_shared_case(rng):
+    """a DAG: 1-3 levels of binary nodes whose two operands are ONE interior node object (a.concat_rows(a), a.natural_join(a)).
+    The check pairs it with the same pipeline built as a tree and with that tree's single-field mutants (equality is structural:
+    node identity must not matter, in either direction)"""
+    import pipes
+    tables = [pipes.gen_table(rng, "d1", unique_col="uid"), pipes.gen_table(rng, "d2", unique_col="uid")]
+    tmap = {t["name"]: t for t in tables}
+    g = pipes.Gen(rng, tables, features=["extend", "extend", "select_rows", "order_rows", "select_columns", "rename_columns", "project"])
+    s, colty, order = g.pipeline(rng.randint(1, 2))
+    if s["op"] == "table":
+        nums = pipes.cols_of(colty, "num")
+        s = {"op": "extend", "src": s, "ops": {"zz1": f"{rng.choice(nums)} + 1"}}
+    s = normalise(s, tmap)
+    joined = False
+    for lv in range(rng.randint(1, 3)):
+        cols = list(build(s).column_names)
+        if "uid" in cols and not joined and rng.random() < 0.4:
+            s = {"op": "natural_join", "src": s, "b": json.loads(json.dumps(s)), "share_b": True, "on": ["uid"], "jointype": rng.choice(["INNER", "LEFT", "FULL"])}
+            joined = True
+        else:
+            idc = rng.choice([None, f"src{lv}"])
+            s = {"op": "concat_rows", "src": s, "b": json.loads(json.dumps(s)), "share_b": True, "id_column": idc, "a_name": "a", "b_name": "b"}
+        if rng.random() < 0.35:
+            cols = list(build(s).column_names)
+            s = rng.choice([{"op": "order_rows", "src": s, "columns": cols[:1], "reverse": [], "limit": None},
+                            {"op": "extend", "src": s, "ops": {f"top{lv}": {"py": ["int", 1]}}},
+                            {"op": "select_columns", "src": s, "columns": cols[: max(1, len(cols) - 1)]}])
+    return s, tables
+
+
 def gen_case(rng):
     import pipes
+    if rng.random() < 0.1:
+        return gen_shared_case(rng)
     if rng.random() < 0.16:
         return gen_recmap_case(rng)
     tables = [pipes.gen_table(rng, "d1", unique_col="uid"), pipes.gen_table(rng, "d2", unique_col="uid")]
@@ -928,8 +970,18 @@ def run(chk):
             if collect:
                 for k in pipes.script_ops(s):
                     chk.dist("step:" + k)
-            muts = script_mutants(s)
-            js = json.dumps(s, sort_keys=False)
+            shared = any(n.get("share_b") for _, n in walk(s))
+            if shared:
+                # left operand: the DAG with shared node objects; right operands: the same pipeline built as a TREE and that
+                # tree's mutants.  A change at or below the SECOND occurrence of a shared node gets a family of its own (always kept)
+                tree = unshare(s)
+                js = json.dumps(tree, sort_keys=False)
+                muts = [(k, ("shared_second_occurrence" if ("b" in p and f == "other") else f), p, m) for k, f, p, m in script_mutants(tree)]
+                if collect:
+                    chk.dist("shape:shared_interior_node_object")
+            else:
+                muts = script_mutants(s)
+                js = json.dumps(s, sort_keys=False)
             muts = [m for m in muts if json.dumps(m[3], sort_keys=False) != js]
             if only_kinds is not None:
                 chosen = [m for m in muts if m[0] in only_kinds][:n_keep]
